@@ -355,6 +355,14 @@ def json_unit(ctx, src, loops):
         u.raw('#define RDC(call) %s\n#define RDG(call) %s' % (rdc, rdg))
         units.append(u)
         return u
+    # the four trivial accessors (no bounds check, cannot throw) are used with their real bodies (inlined); the bounds-checked
+    # accessors get_s8 / pget_s8 / skip_if are replaced by their C01/C02 contracts
+    u = new_unit('rd')
+    for nm, sig, hdr in [('eof', r'bool StringReader::eof\(\) const', 'bool StringReader_eof(const StringReader* self)'),
+                         ('where', r'size_t StringReader::where\(\) const', 'size_t StringReader_where(const StringReader* self)'),
+                         ('size', r'size_t StringReader::size\(\) const', 'size_t StringReader_size(const StringReader* self)'),
+                         ('go', r'void StringReader::go\(size_t offset\)', 'void StringReader_go(StringReader* self, size_t offset)')]:
+        u.function(src, ST, sig, new_header='static inline ' + hdr)
     u = new_unit('hex')
     u.function(src, ST, r'uint8_t value_for_hex_char\(char x\)', ret_zero='0')
     u = new_unit('skip')
@@ -515,8 +523,7 @@ __CPROVER_decreases(r->length - r->offset)
     'num6': '__CPROVER_assigns(e, int_data, float_data)\n__CPROVER_loop_invariant(1 == 1)\n__CPROVER_decreases(e)',
 }
 
-READER_FNS = ['StringReader_get_s8', 'StringReader_pget_s8', 'StringReader_where', 'StringReader_size', 'StringReader_eof',
-              'StringReader_go', 'StringReader_skip_if']
+READER_FNS = ['StringReader_get_s8', 'StringReader_pget_s8', 'StringReader_skip_if']
 HD = 'harness/C05/%s.c'
 
 
@@ -547,6 +554,9 @@ def plan(ctx):
         replace = [c for c in CALLEES if c != enforce and re.search(r'\b%s\s*\(' % c, text.replace('void %s(' % c, ''))]
         if 'replace' in kw:
             replace = kw.pop('replace')
+        if kw.get('loops'):
+            kw.setdefault('engines', ['cadical', 'minisat'])     # SAT only: the SMT back ends never answered first on these and cost cores
+            kw.setdefault('cbmc_flags', ['--slice-formula'])
         g = Group(name=name, harness=HD % entry[2:], entry=entry, function=function, enforce=enforce, replace=replace, **kw)
         groups.append(g)
         return g
@@ -568,7 +578,7 @@ def plan(ctx):
     G('JSON.parse.string', 'string', 'h_string', 'JSON_parse_string', 'JSON::parse(StringReader&, bool): string branch',
       loops=True, kind='loop-contract', replay=RP('string'), fallback_unwind=10, defines=[], first='cadical', object_bits=10)
     G('JSON.parse_cstr', 'entry', 'h_cstr', 'JSON_parse_cstr', 'JSON::parse(const char*, size_t, bool)', replay=RP('text'),
-      replace=['StringReader_eof', 'JSON_parse', 'skip_whitespace_and_comments'])
+      replace=['JSON_parse', 'skip_whitespace_and_comments'])
     G('JSON.parse_str', 'entry', 'h_str', 'JSON_parse_str', 'JSON::parse(const std::string&, bool)', replace=['JSON_parse_cstr'], replay=RP('text'))
     return groups
 
